@@ -24,7 +24,40 @@ func switchRecipe(salt uint64, seed uint64, i int) *rec.Rec {
 	if i%3 == 1 {
 		kind = []string{"packet_in", "mp_reply:flow", "flow_removed", "packet_in", "mp_reply:flow", "port_status"}[(i/3)%6]
 	}
-	return gen.SwitchMessage(r, kind)
+	return withExperimenterOXM(r, gen.SwitchMessage(r, kind))
+}
+
+// withExperimenterOXM inserts, at random positions of the match lists of a switch message, the ONF experimenter-class
+// fields an OpenFlow 1.3 switch uses for TCP flags and action-set output (the library decodes both). Wire-first
+// checks only: the library's constructors build these fields in the basic class.
+func withExperimenterOXM(r *prng.R, m *rec.Rec) *rec.Rec {
+	if !r.Chance(1, 3) {
+		return m
+	}
+	m.Walk(func(x *rec.Rec) {
+		if x.K != "match" || !r.Chance(2, 3) {
+			return
+		}
+		fs := x.List("fields")
+		for n := r.Pick(1, 1, 2); n > 0; n-- {
+			var f *rec.Rec
+			if r.Bool() {
+				f = rec.New("mf").Set("class", spec.ClassExp).Set("field", 42).Set("experimenter", spec.ONFVendor).SetB("value", r.Bytes(2))
+				if r.Bool() {
+					f.SetBool("hasmask", true).SetB("mask", r.Bytes(2))
+				}
+			} else {
+				f = rec.New("mf").Set("class", spec.ClassExp).Set("field", 43).Set("experimenter", spec.ONFVendor).SetB("value", r.Bytes(4))
+			}
+			at := r.Intn(len(fs) + 1)
+			if len(fs) > 1 && r.Chance(3, 4) {
+				at = r.Intn(len(fs) - 1) // mostly not last: later fields must still decode at the right offsets
+			}
+			fs = append(fs[:at], append([]*rec.Rec{f}, fs[at:]...)...)
+		}
+		x.SetL("fields", fs)
+	})
+	return m
 }
 
 func init() {
